@@ -686,3 +686,4 @@ PROPS["C14"]["rule"] += " Values in which one object occurs twice (shared, not c
 PROPS["C12"]["rule"] += " In a quarter of the workloads every rule has two actions (which run in parallel) that both write into the object the rule's `when` binds from the event."
 PROPS["C12"]["rule"] += " The fact-writing actions store a value bound from the event and keep writing to it afterwards; the final comparison of memory and storage compares whole contents."
 PROPS["C18"]["rule"] += " The js requests include scripts that need a library of the location's control, named in a `libraries` list."
+PROPS["C18"]["rule"] += " Ill-typed parent lists include JSON text whose elements are not all names ([null], [\"x\", null], [1])."
